@@ -60,58 +60,6 @@ Definition fr_pow_int (a : frac) (p : Z) : option frac :=
   else if n =? 0 then None
   else Some (Z.pow (- d) (- p), Z.pow (- n) (- p)).
 
-(* ---------------------------------------------------------------- IEEE-754 binary64, as far as
-   walk_div needs it: float(int), float / float, math.floor, math.ceil.  A finite double is
-   m * 2^e, kept as the exact rational (num, den). *)
-(* floor(log2(n/d)) for n, d > 0 *)
-Definition fl_log2 (n d : Z) : Z :=
-  let k := Z.log2 n - Z.log2 d in
-  if 0 <=? k then (if d * Z.pow 2 k <=? n then k else k - 1)
-  else (if d <=? n * Z.pow 2 (- k) then k else k - 1).
-(* nearest double (ties to even) to n/d, n, d > 0, as (m, e) meaning m * 2^e *)
-Definition round53 (n d : Z) : Z * Z :=
-  let e := Z.max (fl_log2 n d - 52) (-1074) in
-  let num := if e <? 0 then n * Z.pow 2 (- e) else n in
-  let den := if e <? 0 then d else d * Z.pow 2 e in
-  let q := num / den in
-  let r := num mod den in
-  let m := if 2 * r <? den then q
-           else if den <? 2 * r then q + 1
-           else if Z.even q then q else q + 1 in
-  (m, e).
-Definition dbl_overflow (me : Z * Z) : bool :=
-  let (m, e) := me in Z.pow 2 1024 <=? (if e <? 0 then m / Z.pow 2 (- e) else m * Z.pow 2 e).
-(* float(z) as exact rational; None = OverflowError *)
-Definition float_of_Z (z : Z) : option frac :=
-  if z =? 0 then Some (0, 1)
-  else let me := round53 (Z.abs z) 1 in
-       if dbl_overflow me then None
-       else let (m, e) := me in
-            let v := if e <? 0 then fr_norm m (Z.pow 2 (- e)) else (m * Z.pow 2 e, 1) in
-            Some (if z <? 0 then fr_neg v else v).
-(* a / b on doubles (b <> 0), result as exact rational *)
-Definition float_div (a b : frac) : frac :=
-  if fst a =? 0 then (0, 1)
-  else
-    let n := Z.abs (fst a) * snd b in
-    let d := snd a * Z.abs (fst b) in
-    let (m, e) := round53 n d in
-    let v := if e <? 0 then fr_norm m (Z.pow 2 (- e)) else (m * Z.pow 2 e, 1) in
-    if Bool.eqb (fst a <? 0) (fst b <? 0) then v else fr_neg v.
-Definition fr_floor (a : frac) : Z := Z.div (fst a) (snd a).
-Definition fr_ceil (a : frac) : Z := - Z.div (- fst a) (snd a).
-(* math.floor(float(l) / r) and math.ceil(float(l) / r) with r a non-zero int *)
-Definition py_float_div_floor (l r : Z) : option Z :=
-  match float_of_Z l, float_of_Z r with
-  | Some fl, Some fr => Some (fr_floor (float_div fl fr))
-  | _, _ => None
-  end.
-Definition py_float_div_ceil (l r : Z) : option Z :=
-  match float_of_Z l, float_of_Z r with
-  | Some fl, Some fr => Some (fr_ceil (float_div fl fr))
-  | _, _ => None
-  end.
-
 (* ---------------------------------------------------------------- sequences *)
 (* PySlice_AdjustIndices for step 1 *)
 Definition norm_idx (n i : Z) : Z :=
